@@ -14,7 +14,8 @@ class _composite_base(prophy_data_object):
 
     @classmethod
     def validate_copy_from(cls, rhs):
-        if not isinstance(rhs, cls):
+        # the value of an optional field is an instance of a per-field subclass of its type: any message of that type fits
+        if not isinstance(rhs, getattr(cls, "_OPTIONAL_OF", cls)):
             raise TypeError("Parameter to copy_from must be instance of same class.")
 
     def _copy_implementation(self, other):
